@@ -239,20 +239,35 @@ class Body:
                 r = ("ref", ("deref", ("deref", args[0])))
             else:
                 r = ("call", cal, args, (bi,))
-            if through_vars == "pure" and name is not None and self._reads_mutable(r):
+            if through_vars == "pure" and name is not None and self._reads_mutable(r, bi, si):
                 # `let n = v.len()` with v: &mut Vec: v may change after n got its value
                 r = ("var", name, l)
         else:
             r = self.sym_rv(node["rv"], depth + 1, through_vars)
-            if through_vars == "pure" and name is not None and self._reads_mutable(r):
+            if through_vars == "pure" and name is not None and self._reads_mutable(r, bi, si):
                 # a named variable computed from memory reachable through a `&mut` (`let bp = self.sp - n`): the place may
                 # be written after the variable got its value, so the variable is not replaced by the expression
                 r = ("var", name, l)
         self._cache[key] = r
         return r
 
-    def _reads_mutable(self, s):
+    def _reads_mutable(self, s, bi=None, si=None):
+        after = None
         for x in subterms(s):
+            if x[0] in ("var", "arg") and len(x) > 2 and isinstance(x[2], int):
+                # a local that is assigned again *after* this value was computed (in a block reachable from here, or later
+                # in this block) no longer is what the value was computed from (`let old = i; i -= 1; .. old ..`)
+                ds = self.defs().get(x[2], [])
+                if len(ds) > (0 if x[2] <= self.arg_count else 1):
+                    if bi is None:
+                        return True
+                    if after is None:
+                        after = set()
+                        for nx in self._succ[bi]:
+                            after |= self.reachable(nx)
+                    for (b2, s2, _) in ds:
+                        if b2 in after or (b2 == bi and (s2 == "term" or (isinstance(s2, int) and isinstance(si, int) and s2 > si))):
+                            return True
             if x[0] == "call" and x[1] and x[1].startswith("std::cell::"):
                 return True       # read through a RefCell / Cell: interior mutability
             if x[0] == "deref":
